@@ -2,16 +2,17 @@ import RustCcModel.Proofs.CountsTac
 /-! `Counts` through the weak-pointer, stash and upgrade operations. -/
 namespace RustCc
 open World
+variable {ex : Bool}
 
-theorem weakStrong_lt {w : World} {E : List Id} (h : CountsH w E) {x : Id} (hs : w.weakStrong (.to x) ≠ 0) : x < w.next := by
+theorem weakStrong_lt {w : World} {E : List Id} (h : CountsH ex w E) {x : Id} (hs : w.weakStrong (.to x) ≠ 0) : x < w.next := by
   cases Nat.lt_or_ge x w.next with
   | inl hl => exact hl
   | inr hge =>
     have := h.mfresh x hge
     simp [World.weakStrong, this] at hs
 
-theorem execOp_counts_unwrap (c : Cfg) (w : World) (self wc : Option Id) (k : Nat) (h : Counts w) :
-    Counts (execOp c w self wc (.unwrap k)) := by
+theorem execOp_counts_unwrap (c : Cfg) (w : World) (self wc : Option Id) (k : Nat) (h : CountsG ex w) :
+    CountsG ex (execOp c w self wc (.unwrap k)) := by
   have hH := h.toH
   simp only [execOp]
   split
@@ -26,31 +27,25 @@ theorem execOp_counts_unwrap (c : Cfg) (w : World) (self wc : Option Id) (k : Na
         · exact absurd (Or.inl e) hg
       have h1 := ((hH.takeTable hx).removeFromList x).upd_same x (fun o => { o with valLive := false }) rfl rfl
       -- the pointer being unwrapped was the only one: nothing else refers to the box
-      have hz : refs ((((w.setH k none).removeFromList x).upd x fun o => { o with valLive := false })) x = 0 := by
-        have hle := h1.le x
-        have hrcW : (((((w.setH k none).removeFromList x).upd x fun o => { o with valLive := false })).heap x).rc = 1 := by
-          rw [upd_heap_same]
-          show (((w.setH k none).removeFromList x).heap x).rc = 1
-          rw [removeFromList_rc]; exact hrc1
-        rw [hrcW] at hle
-        have hc : [x].count x = 1 := by simp
-        omega
-      have h1' := h1.forget (E' := []) (by intro y; simp)
+      have hrcW : (((((w.setH k none).removeFromList x).upd x fun o => { o with valLive := false })).heap x).rc = 1 := by
+        rw [upd_heap_same]
+        show (((w.setH k none).removeFromList x).heap x).rc = 1
+        rw [removeFromList_rc]; exact hrc1
       split
-      · have h3 := ((h1'.dropMetadata x).freeBox x (by simpa using hz)).ret (Ret.unwrapped x)
-        refine (CountsH.pushFrame (.dropMoved x) h3 ?_).toCounts
+      · have h3 := ((h1.dropMetadata x).consumeFree (by rw [dropMetadata_rc]; exact hrcW)).ret (Ret.unwrapped x)
+        refine (CountsH.pushFrame (.dropMoved x) h3 ?_).toCounts0
         intro i hi
         simp only [Frame.ids, List.mem_singleton] at hi
         subst hi; simpa using hxlt
-      · have h3 := (h1'.freeBox x (by simpa using hz)).ret (Ret.unwrapped x)
-        refine (CountsH.pushFrame (.dropMoved x) h3 ?_).toCounts
+      · have h3 := (h1.consumeFree hrcW).ret (Ret.unwrapped x)
+        refine (CountsH.pushFrame (.dropMoved x) h3 ?_).toCounts0
         intro i hi
         simp only [Frame.ids, List.mem_singleton] at hi
         subst hi; simpa using hxlt
   · exact h.congr rfl rfl rfl rfl rfl rfl rfl
 
-theorem execOp_counts_down (c : Cfg) (w : World) (self wc : Option Id) (r : CRef) (k : Nat) (h : Counts w)
-    (hself : ∀ s, self = some s → s < w.next) : Counts (execOp c w self wc (.down r k)) := by
+theorem execOp_counts_down (c : Cfg) (w : World) (self wc : Option Id) (r : CRef) (k : Nat) (h : CountsG ex w)
+    (hself : ∀ s, self = some s → s < w.next) : CountsG ex (execOp c w self wc (.down r k)) := by
   have hH := h.toH
   simp only [execOp]
   split
@@ -61,13 +56,13 @@ theorem execOp_counts_down (c : Cfg) (w : World) (self wc : Option Id) (r : CRef
       split
       · exact h.congr rfl rfl rfl rfl rfl rfl rfl
       · split
-        · exact (hH.initMeta x hxlt).raise.toCounts
+        · exact (hH.initMeta x hxlt).raise.toCounts0
         · exact (((((hH.initMeta x hxlt).updMeta x _ (Or.inl (by simpa using hxlt))).removeFromList x).congr
-            (w' := World.setW _ k _) rfl rfl rfl rfl rfl rfl rfl).ret _).toCounts
+            (w' := World.setW _ k _) rfl rfl rfl rfl rfl rfl rfl).ret _).toCounts0
     · exact h.congr rfl rfl rfl rfl rfl rfl rfl
 
-theorem execOp_counts_up (c : Cfg) (w : World) (self wc : Option Id) (ws : WSel) (k : Nat) (h : Counts w) :
-    Counts (execOp c w self wc (.up ws k)) := by
+theorem execOp_counts_up (c : Cfg) (w : World) (self wc : Option Id) (ws : WSel) (k : Nat) (h : CountsG ex w) :
+    CountsG ex (execOp c w self wc (.up ws k)) := by
   have hH := h.toH
   simp only [execOp]
   split
@@ -85,13 +80,13 @@ theorem execOp_counts_up (c : Cfg) (w : World) (self wc : Option Id) (ws : WSel)
           · rename_i x
             have hxlt : x < w.next := weakStrong_lt hH hstrong
             split
-            · exact (((hH.clone x hxlt).putTable (by simpa [getH] using hnone) (by simpa using hklt)).ret _).toCounts
+            · exact (((hH.clone x hxlt).putTable (by simpa [getH] using hnone) (by simpa using hklt)).ret _).toCounts0
             · exact h.raise
           · exact h.ret _
     · exact h.congr rfl rfl rfl rfl rfl rfl rfl
 
-theorem execOp_counts_wclone (c : Cfg) (w : World) (self wc : Option Id) (ws : WSel) (k : Nat) (h : Counts w) :
-    Counts (execOp c w self wc (.wclone ws k)) := by
+theorem execOp_counts_wclone (c : Cfg) (w : World) (self wc : Option Id) (ws : WSel) (k : Nat) (h : CountsG ex w) :
+    CountsG ex (execOp c w self wc (.wclone ws k)) := by
   have hH := h.toH
   simp only [execOp]
   repeat' split
@@ -100,8 +95,8 @@ theorem execOp_counts_wclone (c : Cfg) (w : World) (self wc : Option Id) (ws : W
     | exact h.raise
     | noptr hH
 
-theorem execOp_counts_wdrop (c : Cfg) (w : World) (self wc : Option Id) (k : Nat) (h : Counts w) :
-    Counts (execOp c w self wc (.wdrop k)) := by
+theorem execOp_counts_wdrop (c : Cfg) (w : World) (self wc : Option Id) (k : Nat) (h : CountsG ex w) :
+    CountsG ex (execOp c w self wc (.wdrop k)) := by
   have hH := h.toH
   simp only [execOp]
   repeat' split
@@ -110,8 +105,8 @@ theorem execOp_counts_wdrop (c : Cfg) (w : World) (self wc : Option Id) (k : Nat
     | exact h.raise
     | noptr hH
 
-theorem execOp_counts_wnew (c : Cfg) (w : World) (self wc : Option Id) (k : Nat) (h : Counts w) :
-    Counts (execOp c w self wc (.wnew k)) := by
+theorem execOp_counts_wnew (c : Cfg) (w : World) (self wc : Option Id) (k : Nat) (h : CountsG ex w) :
+    CountsG ex (execOp c w self wc (.wnew k)) := by
   have hH := h.toH
   simp only [execOp]
   repeat' split
@@ -120,8 +115,8 @@ theorem execOp_counts_wnew (c : Cfg) (w : World) (self wc : Option Id) (k : Nat)
     | exact h.raise
     | noptr hH
 
-theorem execOp_counts_setw (c : Cfg) (w : World) (self wc : Option Id) (n : NRef) (i : Nat) (ws : WSel) (h : Counts w) :
-    Counts (execOp c w self wc (.setw n i ws)) := by
+theorem execOp_counts_setw (c : Cfg) (w : World) (self wc : Option Id) (n : NRef) (i : Nat) (ws : WSel) (h : CountsG ex w) :
+    CountsG ex (execOp c w self wc (.setw n i ws)) := by
   have hH := h.toH
   simp only [execOp]
   repeat' split
@@ -130,8 +125,8 @@ theorem execOp_counts_setw (c : Cfg) (w : World) (self wc : Option Id) (n : NRef
     | exact h.raise
     | noptr hH
 
-theorem execOp_counts_clrw (c : Cfg) (w : World) (self wc : Option Id) (n : NRef) (i : Nat) (h : Counts w) :
-    Counts (execOp c w self wc (.clrw n i)) := by
+theorem execOp_counts_clrw (c : Cfg) (w : World) (self wc : Option Id) (n : NRef) (i : Nat) (h : CountsG ex w) :
+    CountsG ex (execOp c w self wc (.clrw n i)) := by
   have hH := h.toH
   simp only [execOp]
   repeat' split
@@ -140,8 +135,8 @@ theorem execOp_counts_clrw (c : Cfg) (w : World) (self wc : Option Id) (n : NRef
     | exact h.raise
     | noptr hH
 
-theorem execOp_counts_cdrop (c : Cfg) (w : World) (self wc : Option Id) (k : Nat) (h : Counts w) :
-    Counts (execOp c w self wc (.cdrop k)) := by
+theorem execOp_counts_cdrop (c : Cfg) (w : World) (self wc : Option Id) (k : Nat) (h : CountsG ex w) :
+    CountsG ex (execOp c w self wc (.cdrop k)) := by
   have hH := h.toH
   simp only [execOp]
   repeat' split
@@ -150,8 +145,8 @@ theorem execOp_counts_cdrop (c : Cfg) (w : World) (self wc : Option Id) (k : Nat
     | exact h.raise
     | noptr hH
 
-theorem execOp_counts_wdropN (c : Cfg) (w : World) (self wc : Option Id) (k : CRef) (n : Nat) (h : Counts w) :
-    Counts (execOp c w self wc (.wdropN k n)) := by
+theorem execOp_counts_wdropN (c : Cfg) (w : World) (self wc : Option Id) (k : CRef) (n : Nat) (h : CountsG ex w) :
+    CountsG ex (execOp c w self wc (.wdropN k n)) := by
   have hH := h.toH
   simp only [execOp]
   repeat' split
@@ -160,8 +155,8 @@ theorem execOp_counts_wdropN (c : Cfg) (w : World) (self wc : Option Id) (k : CR
     | exact h.raise
     | noptr hH
 
-theorem execOp_counts_cloneN (c : Cfg) (w : World) (self wc : Option Id) (r : CRef) (n : Nat) (h : Counts w)
-    (hself : ∀ s, self = some s → s < w.next) : Counts (execOp c w self wc (.cloneN r n)) := by
+theorem execOp_counts_cloneN (c : Cfg) (w : World) (self wc : Option Id) (r : CRef) (n : Nat) (h : CountsG ex w)
+    (hself : ∀ s, self = some s → s < w.next) : CountsG ex (execOp c w self wc (.cloneN r n)) := by
   have hH := h.toH
   simp only [execOp]
   split
@@ -170,28 +165,28 @@ theorem execOp_counts_cloneN (c : Cfg) (w : World) (self wc : Option Id) (r : CR
     split
     · exact h.ret _
     · split
-      · exact ((((hH.incrRc x n hxlt).removeFromList x).toStash).ret _).toCounts
+      · exact ((((hH.incrRc x n hxlt).removeFromList x).toStash).ret _).toCounts0
       · split
         · rename_i hroom
-          have h0 : CountsH w (List.replicate (c.rcMax - (w.heap x).rc) x ++ []) := by rw [hroom]; exact hH
-          exact h0.toStash.raise.toCounts
-        · exact ((((hH.incrRc x _ hxlt).removeFromList x).toStash)).raise.toCounts
+          have h0 : CountsH ex w (List.replicate (c.rcMax - (w.heap x).rc) x ++ []) := by rw [hroom]; exact hH
+          exact h0.toStash.raise.toCounts0
+        · exact ((((hH.incrRc x _ hxlt).removeFromList x).toStash)).raise.toCounts0
   · exact h.congr rfl rfl rfl rfl rfl rfl rfl
 
-theorem execOp_counts_dropN (c : Cfg) (w : World) (self wc : Option Id) (r : CRef) (n : Nat) (h : Counts w)
-    (hself : ∀ s, self = some s → s < w.next) : Counts (execOp c w self wc (.dropN r n)) := by
+theorem execOp_counts_dropN (c : Cfg) (w : World) (self wc : Option Id) (r : CRef) (n : Nat) (h : CountsG ex w)
+    (hself : ∀ s, self = some s → s < w.next) : CountsG ex (execOp c w self wc (.dropN r n)) := by
   have hH := h.toH
   simp only [execOp]
   split
   · rename_i x hx
     have hxlt := resolveC_lt h hself hx
     have h1 := (hH.fromStash x (min n (w.stash x)) (Nat.min_le_right _ _)).ret .ok
-    exact (CountsH.pushFrame (E := []) (.dropMany x (min n (w.stash x))) h1 (by simp [Frame.ids])).toCounts
+    exact (CountsH.pushFrame (E := []) (.dropMany x (min n (w.stash x))) h1 (by simp [Frame.ids])).toCounts0
   · exact h.congr rfl rfl rfl rfl rfl rfl rfl
 
 
-theorem execOp_counts_downN (c : Cfg) (w : World) (self wc : Option Id) (r : CRef) (n : Nat) (h : Counts w)
-    (hself : ∀ s, self = some s → s < w.next) : Counts (execOp c w self wc (.downN r n)) := by
+theorem execOp_counts_downN (c : Cfg) (w : World) (self wc : Option Id) (r : CRef) (n : Nat) (h : CountsG ex w)
+    (hself : ∀ s, self = some s → s < w.next) : CountsG ex (execOp c w self wc (.downN r n)) := by
   have hH := h.toH
   simp only [execOp]
   split
